@@ -40,4 +40,19 @@ PROPS = {
         ],
         "explanation": "Each __eq__/__ne__/__hash__ is verified against a specification predicate (record key equality; same record-key sets; same bundle ids with the same record-key sets); reflexivity, symmetry, transitivity and hash agreement are lemmas over those predicates.",
     },
+    "C05": {
+        "level": "proof",
+        "driver": "replay/c05.py",
+        "timeout": 30.0,
+        "trusted_base": TRUSTED_SOLVERS + ["A4 dateutil.parser.parse (assumed contract ext:dateutil.parser.parse)"],
+        "assumptions": A_COMMON + [
+            "record state view as in C04 (QMap[VSet]); the size field of a python set is maintained by the only mutator model (vs_add) and is its cardinality in every reachable state",
+            "A3/A4: int(text)/float(text)/dateutil.parser.parse are uninterpreted parsers with validity predicates (py_int, py_float, dt_parse); nothing about particular lexical forms is assumed",
+            "precondition (inputs of the property): attribute names are QualifiedNames or text not starting with ':', values are scalars, library values or records (no containers); times are datetimes or parseable text",
+            "add_attributes/new_record are stated for the pair-list form; the dict form is converted to it by the first statements of the body (attributes.items())",
+            "add_asserted_type is stated for QualifiedName arguments (what every caller in the package passes)",
+            "not claimed (as in the property): several prov:entity values of one membership record",
+        ],
+        "explanation": "NF (formal attributes single-valued and typed, other values normalised) is the class invariant of ProvRecord: established by the constructors, preserved by every writer of _attributes (add_attributes with its loop invariant, add_asserted_type, set_time), on normal and on exceptional exits.",
+    },
 }
